@@ -913,7 +913,9 @@ theorem pySl_wf (env : Env) : ∀ s v, pySl s = .ok v → wfVal env v = true := 
         | (cases hu; exact (wf_parse env _).1 _ _ _ (by assumption))
     · repeat' (split at hw)
       all_goals first | (cases hw; done) | (cases hw; rfl)
-  · cases h
+  · split at h
+    · cases h; rfl
+    · cases h
 
 theorem pyLeaves_slwf (env : Env) (today : Int) : SlWf env (pyLeaves env today) :=
   pySl_wf env
